@@ -189,6 +189,10 @@ pub fn c18(thorough: bool, miri: bool, seed: u64, threads: usize) -> Json {
             }
         }
     }
+    if miri {
+        // the interpreter is ~4 orders of magnitude slower: a handful of configurations only
+        cfgs.truncate(3);
+    }
     let cfgs = Arc::new(cfgs);
     let next = Arc::new(AtomicUsize::new(0));
     let total = Arc::new(Mutex::new(PureReport::default()));
@@ -240,6 +244,8 @@ pub fn c18(thorough: bool, miri: bool, seed: u64, threads: usize) -> Json {
                         }
                     }
                     rep.class("writer-config-exhausted");
+                } else if i == cfgs.len() + 3 && miri {
+                    // skipped under Miri
                 } else if i == cfgs.len() + 3 {
                     // many buffered pieces flushed at once (sizes around 1024 = IOV_MAX, and the u16 maximum)
                     for (size, adds) in [(1023u16, 1023usize), (1024, 1024), (1025, 1025), (1100, 1100), (2048, 2000), (4096, 4096), (65535, 3000)] {
@@ -255,7 +261,7 @@ pub fn c18(thorough: bool, miri: bool, seed: u64, threads: usize) -> Json {
                 } else if i < cfgs.len() + 4 + 64 {
                     // seeded random long sequences with large parameters
                     let mut r = Rng::new(seed.wrapping_mul(977).wrapping_add(i as u64));
-                    for _ in 0..nrandom / 64 {
+                    for _ in 0..(if miri { (i == cfgs.len() + 4) as usize * 2 } else { nrandom / 64 }) {
                         let size = *r.pick(&[1u16, 2, 3, 7, 64, 1000, 65534, 65535]);
                         let chunk = *r.pick(&[1usize, 8, 9, 512, 1428, 65464]);
                         let reader = r.chance(600);
